@@ -102,6 +102,7 @@ def run_checks(rel, code):
         chk = Check(pid, "quick", quiet=True)
         try:
             mod.run(project, chk)
+            chk.raise_unmet_floors()
             new, _ = chk.split_findings()
             if new:
                 fired.append(pid)
